@@ -152,7 +152,7 @@ def str_const(s: str, ty: TStr) -> V:
 TEXT_LITERALS: dict = {}
 
 
-def text_literal_axioms():
+def text_literal_axioms(bounded=False):
     """Distinct opaque-text literals denote distinct texts of the right length."""
     out = []
     lits = list(TEXT_LITERALS.items())
@@ -161,7 +161,7 @@ def text_literal_axioms():
         for sv, c in lits:
             out.append(T.text_len()(c) == len(sv))
     from . import ops
-    out.extend(ops.global_axioms())
+    out.extend(ops.global_axioms(bounded))
     return out
 
 
